@@ -1,6 +1,7 @@
 package main
 
 import (
+	"go/ast"
 	"go/token"
 	"go/types"
 	"strings"
@@ -163,7 +164,10 @@ func checkCacheStoreChecksCopy(w *World, r *Run) {
 				if cc, idx := callOf(f.Val); cc == cp && idx == 1 {
 					okEdge = true
 				}
-				if sliceContains(f.Val, false, func(x ssa.Value) bool { e, ok := x.(*ssa.Extract); return ok && cp != nil && e.Tuple == ssa.Value(cp) && e.Index == 1 }) {
+				if sliceContains(f.Val, false, func(x ssa.Value) bool {
+					e, ok := x.(*ssa.Extract)
+					return ok && cp != nil && e.Tuple == ssa.Value(cp) && e.Index == 1
+				}) {
 					okEdge = true
 				}
 			}
@@ -255,4 +259,160 @@ func checkEverySubqueryScoped(w *World, r *Run, rule string) {
 	if n == 0 {
 		r.OK(rule, "outbox statements with sub-selects", token.NoPos, "none")
 	}
+}
+
+// checkQueuedPutMetadataGuard: a queued PutObject is replayed with the metadata read back from
+// the outbox row; the "entry carries metadata" test must mention every variable the metadata
+// literal is then built from, or an entry whose only metadata is the unmentioned field is
+// replayed without it.
+func checkQueuedPutMetadataGuard(w *World, r *Run, rule string) {
+	n := 0
+	for _, d := range []string{"sqlite", "pgx"} {
+		pkg := w.Pkg(relDBRepo + "/" + d + "/repository/storageoutboxentry")
+		if pkg == nil {
+			r.Anchor(rule, d+"/storageoutboxentry")
+			continue
+		}
+		for _, file := range pkg.Syntax {
+			ast.Inspect(file, func(nd ast.Node) bool {
+				ifs, ok := nd.(*ast.IfStmt)
+				if !ok {
+					return true
+				}
+				var lit *ast.CompositeLit
+				ast.Inspect(ifs.Body, func(x ast.Node) bool {
+					if cl, ok := x.(*ast.CompositeLit); ok && lit == nil {
+						if tv, ok := pkg.TypesInfo.Types[cl]; ok && strings.HasSuffix(tv.Type.String(), "ObjectMetadata") {
+							lit = cl
+						}
+					}
+					return true
+				})
+				if lit == nil {
+					return true
+				}
+				tested := map[string]bool{}
+				ast.Inspect(ifs.Cond, func(x ast.Node) bool {
+					if id, ok := x.(*ast.Ident); ok {
+						tested[id.Name] = true
+					}
+					return true
+				})
+				var missing []string
+				for _, e := range lit.Elts {
+					kv, ok := e.(*ast.KeyValueExpr)
+					if !ok {
+						continue
+					}
+					if id, ok := kv.Value.(*ast.Ident); ok && !tested[id.Name] {
+						missing = append(missing, id.Name)
+					}
+				}
+				n++
+				r.Check(len(missing) == 0, rule, d+"/storageoutboxentry: metadata of a queued put is rebuilt whenever any field is set", ifs.Pos(), "every literal value is tested in the guard", "the guard does not mention "+strings.Join(missing, ", ")+": a queued PutObject whose only metadata is that field is replayed without metadata, so the secondary (or the inner storage) diverges from what was acknowledged")
+				return true
+			})
+		}
+	}
+	if n == 0 {
+		r.Bad(rule, "storageoutboxentry: metadata guard", token.NoPos, "no guarded ObjectMetadata literal found")
+	}
+}
+
+// checkCompressionChainsSource: the compression middleware samples the start of a part and
+// then reads on from the source; the source must stay chained behind the sample on every
+// path, because an error it still has to deliver (a truncated aws-chunked body ends with
+// ErrUnexpectedEOF, exactly like a short sample read) must fail the write.
+func checkCompressionChainsSource(w *World, r *Run, rule string) {
+	fn := w.SSAFunc(relCompression, "PartStoreMiddleware.PutPart")
+	if fn == nil {
+		r.Anchor(rule, "compression.PartStoreMiddleware.PutPart")
+		return
+	}
+	var src *ssa.Parameter
+	for _, p := range fn.Params {
+		if strings.HasSuffix(p.Type().String(), "io.Reader") {
+			src = p
+		}
+	}
+	n, good := 0, true
+	allInstrs(fn, false, func(_ *ssa.Function, ins ssa.Instruction) {
+		al, ok := ins.(*ssa.Alloc)
+		if !ok || al.Comment != "bodyReader" {
+			return
+		}
+		for _, v := range storesTo(al) {
+			n++
+			if !sliceContains(v, true, func(x ssa.Value) bool { return x == ssa.Value(src) }) {
+				good = false
+			}
+		}
+	})
+	if n == 0 {
+		// not captured by reference: every MultiReader in the function must include the source
+		allInstrs(fn, false, func(_ *ssa.Function, ins ssa.Instruction) {
+			if c, ok := ins.(*ssa.Call); ok && isCallNamed(c, "MultiReader") {
+				n++
+				if !sliceContains(c, true, func(x ssa.Value) bool { return x == ssa.Value(src) }) {
+					good = false
+				}
+			}
+		})
+	}
+	r.Check(good && n > 0 && src != nil, rule, "compression PutPart always reads on from the source after the sample", fn.Pos(), "bodyReader = MultiReader(sample, reader) on every path", "on some path the body is the sample alone: an error the source would still deliver (a short sample read looks the same as a broken chunked upload) is swallowed and the partial bytes are stored as a complete part")
+}
+
+// checkSinkRecoveryTracksValidator: when a log file is reopened the sink replays it through
+// the validator and must take over the validator's block buffer after every entry — also after
+// a GROUNDING entry, which empties it.
+func checkSinkRecoveryTracksValidator(w *World, r *Run) {
+	rule := r.Rule("recovered-block-buffer-follows-the-validator-after-every-entry", "F1",
+		"in sink.NewFileSink the assignment of the validator's HashBuffer to the recovered buffer does not depend on the entry's type", 1)
+	fn := w.SSAFunc("internal/auditlog/sink", "NewFileSink")
+	if fn == nil {
+		r.Anchor(rule, "sink.NewFileSink")
+		return
+	}
+	n, bad := 0, false
+	allInstrs(fn, true, func(_ *ssa.Function, ins ssa.Instruction) {
+		st, ok := ins.(*ssa.Store)
+		if !ok {
+			return
+		}
+		if nm, _ := fieldLoadName(st.Val); nm != "HashBuffer" {
+			return
+		}
+		n++
+		for _, f := range factsAt(st.Block()) {
+			for _, v := range []ssa.Value{f.Val, f.Other} {
+				if v == nil {
+					continue
+				}
+				if nm, _ := fieldLoadName(v); nm == "Type" {
+					bad = true
+				}
+			}
+		}
+	})
+	if n == 0 {
+		// value flow without a cell: look at phis fed by a HashBuffer load
+		allInstrs(fn, true, func(_ *ssa.Function, ins ssa.Instruction) {
+			if ld, ok := ins.(*ssa.UnOp); ok {
+				if nm, _ := fieldLoadName(ld); nm == "HashBuffer" {
+					n++
+					for _, f := range factsAt(ld.Block()) {
+						for _, v := range []ssa.Value{f.Val, f.Other} {
+							if v == nil {
+								continue
+							}
+							if nm2, _ := fieldLoadName(v); nm2 == "Type" {
+								bad = true
+							}
+						}
+					}
+				}
+			}
+		})
+	}
+	r.Check(n > 0 && !bad, rule, "NewFileSink takes over the validator's block buffer after every recovered entry", fn.Pos(), "unconditional", "the recovered buffer is refreshed only for some entry types: after a GROUNDING entry the validator's buffer is empty but the sink keeps the previous block, so a restart right after a grounding makes the next grounding appear after a single entry and the log fails verification")
 }
